@@ -477,7 +477,11 @@ func (router_info *RouterInfo) RouterCapabilities() string {
 		return ""
 	}
 	// return string(router_info.options.Values().Get(str))
-	caps := string(router_info.Options().Values().Get(str)) // Options() guards a nil options field
+	// Options() guards a nil options field; Data() strips the I2PString length prefix
+	caps, err := router_info.Options().Values().Get(str).Data()
+	if err != nil {
+		return ""
+	}
 	log.WithField("capabilities", caps).Debug("Retrieved RouterCapabilities")
 	return caps
 }
@@ -491,7 +495,11 @@ func (router_info *RouterInfo) RouterVersion() string {
 		return ""
 	}
 	// return string(router_info.options.Values().Get(str))
-	version := string(router_info.Options().Values().Get(str)) // Options() guards a nil options field
+	// Options() guards a nil options field; Data() strips the I2PString length prefix
+	version, err := router_info.Options().Values().Get(str).Data()
+	if err != nil {
+		return ""
+	}
 	log.WithField("version", version).Debug("Retrieved RouterVersion")
 	return version
 }
